@@ -232,7 +232,12 @@ func evalC09(c *Ctx, cs *Case) {
 				base := runtime.NumGoroutine()
 				var o Outcome
 				rep := captureColorOutput(func() {
-					o = mkdirCall(mkdirRoutes[1], "", root, append(fsOpts(j.Target, exts, hasExt, true, massive, false), bopts...))
+					// a third of the calls name a target directory that does not exist yet: a dry run must not create it
+					tgt := j.Target
+					if (ei+len(root.Name))%3 == 0 {
+						tgt = j.Target + "/not-yet/there"
+					}
+					o = mkdirCall(mkdirRoutes[1], "", root, append(fsOpts(tgt, exts, hasExt, true, massive, false), bopts...))
 					if massive {
 						c09Quiet.Quiesce(base)
 					}
